@@ -17,6 +17,7 @@ from concurrent.futures import ThreadPoolExecutor
 SRC = sys.argv[1] if len(sys.argv) > 1 else "/tmp/seed_out"
 ONLY = sys.argv[2:] if len(sys.argv) > 2 else None
 OUT = "/verif/seeded"
+TAG = os.environ.get("SEED_TAG", "")
 PY = "/venv/bin/python"
 PYTEST = [PY, "-m", "pytest", "-q", "-p", "no:cacheprovider", "--timeout=900", "--continue-on-collection-errors"]
 
@@ -30,7 +31,7 @@ def one(patch):
     d = os.path.dirname(patch)
     pid = os.path.basename(d)
     n = os.path.basename(patch)[5:-5]
-    name = f"{pid}-{n}"
+    name = f"{pid}-{TAG}{n}"
     wt = f"/tmp/cur/{name}"
     demo = os.path.join(d, f"demo{n}.py")
     meta_src = os.path.join(d, f"meta{n}.json")
